@@ -312,7 +312,17 @@ def _work(unit):
         return ("error", unit[:2], "harness error: %s\n%s" % (ex, traceback.format_exc(limit=12)))
 
 
+def _die_with_parent():
+    """Workers must not outlive the check (e.g. when it is killed by a timeout): PR_SET_PDEATHSIG = SIGKILL."""
+    try:
+        import ctypes
+        ctypes.CDLL("libc.so.6", use_errno=True).prctl(1, 9, 0, 0, 0)
+    except Exception:
+        pass
+
+
 def _worker_loop(wid, tasks, results, per_child):
+    _die_with_parent()
     done = 0
     while done < per_child:
         item = tasks.get()
@@ -621,7 +631,8 @@ def main(argv=None):
         "wall_s": round(wall, 2),
         "violations": new_violations,
     }
-    evdir = pathlib.Path(os.environ.get("VERIF_EVIDENCE_DIR") or (VERIF / "evidence"))
+    partial = bool(args.only_space or args.no_canaries)      # partial runs (debugging aids) never overwrite the evidence of record
+    evdir = pathlib.Path(os.environ.get("VERIF_EVIDENCE_DIR") or (VERIF / "replays" / "partial-evidence" if partial else VERIF / "evidence"))
     evdir.mkdir(exist_ok=True, parents=True)
     (evdir / (pid + ".json")).write_text(json.dumps(ev, indent=1, default=str, ensure_ascii=False))
 
